@@ -412,3 +412,17 @@ func (m *Module) provablyNonNil(v ssa.Value, b *ssa.BasicBlock, depth int) bool 
 	}
 	return false
 }
+
+// ResultOf returns the dynamic types of result #idx of fn over all its returns (excluding returns whose error
+// result is provably non-nil when exclErr is set).
+func (d *DynTypes) ResultOf(fn *ssa.Function, idx int, exclErr bool) TypeSet {
+	for i := 0; i < 6; i++ {
+		d.cyclic = false
+		before := d.snapshot()
+		r := d.ofResult(fn, idx, exclErr, 0)
+		if !d.cyclic || before == d.snapshot() {
+			return r
+		}
+	}
+	return TypeSet{Top: true}
+}
